@@ -24,6 +24,35 @@ CHECKS = {
    tech="TLA+ CharGen.tla/WordGen.tla ErrIff, TrialsBounded model-checked; TLC trace validation of real Generate outcomes (ok / error class / panic), attempt counts and SuccessProbability against the exact fraction",
    text="ErrIff (error exactly for non-positive length, empty alphabet, missing/empty list, or an unacceptable failure rate), TrialsBounded and 'no panic without a source fault' are invariants of the generator machines, model-checked with MaxFailRate = 1 and with the default refusal band. The real Generate is run for zero values, non-positive lengths, empty alphabets, overlapping/equal/emptied required sets, a ladder of recipes across the refusal threshold, attempt budgets 1..350 on tapes where every attempt fails, and wordlist recipes without or with empty lists and failing separators; TLC validates every recorded outcome, the number of draws (<= MaxTrials x Length) and SuccessProbability() against count/|A|^L.",
    note="The refusal rule is decided as a band (must refuse <= 0.085, must not >= 0.11); a required set emptied by exclusion: both outcomes accepted."),
+
+ "C04": dict(cat="model_checking", ref="DESIGN.md section 5 C04",
+   tech="TLA+ WordGen.tla counting invariants model-checked by TLC; exact output distribution of the real WLRecipe.Generate by choice-tree enumeration; TLC compares it with the image of WordGen's uniform independent choices (WordTrace.tla)",
+   text="WordGen.tla (one action per draw of WLRecipe.Generate, incl. the separator call made by Entropy()) is model-checked: every password of an all-capitalisable list has exactly one choice path and their number is size^L x capitalisations x separators^(L-1). The real Generate is bound to it by enumerating its complete choice tree for seeded lists (2-7 words, multi-byte, twins, uncapitalisable words), lengths 1-3, all schemes, constant/empty/preset-like/custom/caller-written separators; TLC sums exact leaf masses per token sequence and requires them to equal the image of uniform, independent word/capitalisation/separator choices computed from the specification (equality, or an interval when a run had to be abandoned), and replays the WordGen machine along every index path. Bounds used (incl. 18325, 10129) are checked against Draw.tla.",
+   note="Exact for small lists only; the shipped lists are covered through their sizes at the draw level; separator recipes with requirements are checked for structure only; relies on C01."),
+ "C05": dict(cat="model_checking", ref="DESIGN.md section 5 C05",
+   tech="TLA+ WordGen.tla structure invariants model-checked; TLC trace validation of every recorded token sequence of the real Generate against the structure relation and the WordGen machine",
+   text="OutStructure/CapsShape (exactly Length atoms, title-cased exactly at positions of the shape the scheme prescribes, one separator between adjacent atoms iff non-empty, none leading/trailing) are invariants of WordGen.tla, model-checked incl. L = 1, unknown schemes, empty and functional-empty separators. Every leaf of complete choice trees of the real Generate and forced paths (first/last index) on a 606-word list are validated by TLC against the same relation on concrete text (existential over capital positions), plus String() = concatenation and Atoms()/Separators() = the typed values in order (also on every token round trip of C11).",
+   note="Title-casing of each word is supplied by the harness from the standard library; lists containing the empty string are outside the domain."),
+ "C06": dict(cat="model_checking", ref="DESIGN.md section 5 C06",
+   tech="TLA+ MinEntropyHolds/UniformWhenCapitalisable model-checked; exact max-probability per recipe from choice trees of the real code compared by TLC with 2^-Entropy() via an integer-only log2 bracket",
+   text="For complete choice trees of the real Generate of both kinds (character recipes with overlapping/duplicated required sets and retries; wordlist recipes with uncapitalisable and pre-capitalised words under every scheme and functional separators) TLC computes the exact probability of the likeliest token sequence and requires Entropy() <= log2(1/pmax) (+ float32 tolerance), equality where the cell is uniform, and Password.Entropy bit-identical to Entropy() on every leaf. The model-level counterpart (no password has more than |Paths|/EntropyCount paths) is model-checked on WordGen.",
+   note="Small recipes only; tolerance 2-4 float32 ulp; separator recipes with requirements are excluded from the bitwise Password.Entropy comparison because Entropy() draws a separator."),
+ "C08": dict(cat="model_checking", ref="DESIGN.md section 5 C08",
+   tech="TLA+ WordListCtor.tla under every map-iteration order model-checked (with a refuted shipped-variant as non-vacuity witness); TLC trace validation of real Entropy() values across repeated, permuted constructions against the exact formula",
+   text="WordListCtor.tla lets the environment choose every visiting order of NewWordList's deleting pass: TLC verifies that the uncapitalisable count is order-independent for the repaired code and finds the two-order counterexample for the code as shipped. Real recipes (twin/uncapitalisable/seeded lists x schemes x separators) are constructed hundreds to thousands of times from permuted and repeated input; TLC checks every distinct observed Entropy() against log2(size^L x capitalisation factor x separator count^(L-1)) (bonus iff every kept word changes under title-casing) and bit-identity across calls and constructions.",
+   note="Real iteration orders are sampled, not enumerated; tolerance 4 ulp."),
+ "C10": dict(cat="model_checking", ref="DESIGN.md section 5 C10",
+   tech="TLA+ WordListCtor.tla (all visiting/collect orders) model-checked; TLC trace validation of kept set, Size(), caller's slice and generated atoms of the real NewWordList against KeptSpec",
+   text="KeptIsSpec, InputUntouched, ErrOnlyForEmpty hold in WordListCtor.tla under every order the environment can choose. For directed (twins in both orders, acronyms, camel case, digraphs, spaced/hyphenated words) and seeded input lists the real NewWordList is run 200-3000 times on permuted/repeated input and generated from; TLC checks kept = input set minus title-cased twins, no duplicates, Size(), untouched caller slice, identical outcome across constructions, and every atom is a kept word or its title-cased form.",
+   note="strings.Title per word is an environment function supplied by the harness."),
+ "C11": dict(cat="model_checking", ref="DESIGN.md section 5 C11",
+   tech="TLA+ Tokens.tla (RoundTrip, DocumentedSize, NeverLossy) exhaustively model-checked; TLC-generated token universe replayed on the real MakeIndices/Tokenize and validated by TLC",
+   text="Tokens.tla specifies Kind, MakeIndices and Tokenize; RoundTrip/DocumentedSize/NeverLossy are model-checked for every token sequence of the bounded universe. TLC writes that universe as scenarios; the harness builds each sequence through the public API, encodes and decodes it with the real code, also for passwords generated by real recipes (ASCII/non-ASCII) and tokens of 1..512 characters; TLC validates values, types, entropy, index size and 'error instead of a lossy index'.",
+   note="Zero-length tokens are outside the premise."),
+ "C12": dict(cat="model_checking", ref="DESIGN.md section 5 C12",
+   tech="TLA+ Tokens.tla TotalOK exhaustively model-checked; TLC-generated (index, string) universe plus seeded damaged indices replayed on the real Tokenize with recover and validated by TLC",
+   text="TotalOK (error, or consecutive slices with exactly the counts and types the index specifies; errors for empty index, unknown kind, truncated pair, lengths beyond the string) is model-checked for every index of up to 5-6 bytes x every short string. The same universe, every kind byte 0..255, indices of every length/parity, invalid UTF-8 and damaged valid indices are run on the real Tokenize under recover; TLC validates each result; a recovered panic has no counterpart in the specification.",
+   note="Strings are projected to code points by the harness; invalid bytes that could merge into a valid sequence are not generated."),
 }
 PLANNED = {}
 props = [json.loads(l) for l in open(V + "/properties.jsonl")]
